@@ -208,6 +208,30 @@ def main(tier, seed):
         res.violations.extend(synthetic(pair, r, res))
         res.add_case(("synthetic",), True)
         res.disagreements.extend(pair.disagreements[:3]); pair.disagreements = []
+        # storage holding ONE pending entry above 65536 bytes: the state between the entry write and the header write of a large
+        # batch append (the Rust writer flushes such an entry away in the same call; a crash or another writer leaves it)
+        try:
+            pair.reset(); pair.raw("disk D")
+            pair.do("new W D writer"); pair.do("append W 61 6263")
+            n0, _ = parse_journal(pair.impl.cmd("journal D 0"))
+            pair.do("append W " + " ".join("%02x" % (65 + i % 26) for i in range(1000)))
+            _, allops = parse_journal(pair.impl.cmd("journal D 0"))
+            ent = [i for i in range(n0, len(allops)) if allops[i].startswith("w:o:") and int(allops[i].split(":")[2]) >= 8192]
+            if ent:
+                size = len(allops[ent[0]].split(":")[3]) // 2
+                pair.raw("fork X D %d" % (ent[0] + 1))
+                pair.core_disk["X"] = "X"
+                pair.jpos["X"] = 10 ** 9
+                ia, _ = pair.do("open X X")
+                if not ia.startswith("ok"):
+                    raise Violation("reader:open", "storage with one pending entry of %d bytes: open answered %s" % (size, ia[:100]), "big-entry")
+                reader_check(pair, "X", "X", "storage with one pending oplog entry of %d bytes" % size)
+                res.count("big-pending-entry")
+                pair.raw("drop X")
+        except Violation as v:
+            res.violations.append(dict(key=v.key, what=v.what, replay=dict(case="big pending entry: append 2 blocks, append 1000 one-byte blocks, cut after the entry write")))
+        res.add_case(("big-pending-entry",), True, sample="one pending oplog entry above 65536 bytes read by the independent reader and by the crate")
+        res.disagreements.extend(pair.disagreements[:3]); pair.disagreements = []
         # reader oracle at every operation boundary of writer histories
         hs = [random_history(r, r.choice([5, 9, 14])) for _ in range(25 if tier == "quick" else 500)]
         # clears over word borders / over already-emptied words of a bitfield page (what a flush persists of them is read by the
